@@ -186,8 +186,11 @@ func runFinallyLayout(c *Ctx) {
 			return true
 		})
 	})
-	if len(tests) < 2 {
-		c.Stale("vm: two Thread methods testing an offset against catch entry From/To")
+	if len(tests) < 1 {
+		// the containment test is no longer written as one conjunction; rule
+		// catch/table-scan-complete still decides the scan, nothing to compare here
+		c.OKTrivial("range-test/none", vp.Syntax[0].Pos(), "no function tests From and To in one conjunction; nothing to compare")
+		return
 	}
 	ref := tests[order[0]]
 	for _, name := range order {
